@@ -19,6 +19,7 @@ def case(shell, values, word="", msgs=None, nospace="", env=None, usage=""):
                                   "meta": {"messages": msgs or [], "nospace": nospace, "usage": usage}, "values": vs}}
 
 W = {
+    "err_name_collides_after_sanitising": [case("fish", ["x\rERR", "xa"], word="x", msgs=["m"]), case("xonsh", ["\nERR"], word="", msgs=["m"])],
     "filler_typed_E": [case("fish", [], word="FE", msgs=["boom"])],
     "bash_common_prefix_not_extending": [case("bash", ["Foo", "FOX"], word="fo", env={"ci": True}),
                                          case("bash", ["E"], word=":", msgs=["m1", "m2"], env={"unfiltered": True}),
